@@ -63,15 +63,37 @@ def main():
                 tm = _TimeModule(clock)
                 cm.enter_context(patched(algo_base, "time", tm))
                 cm.enter_context(patched(fom, "time", tm))
+            reuse = plan.get("reuse_settings") if mode == "history" else None
+
+            def settings_used_before(name, kw_):
+                """One AlgorithmSettings object, already used for an earlier seeded call with another number of iterations."""
+                from leaspy.algo import AlgorithmSettings
+
+                st_ = AlgorithmSettings(name, **{k_: v_ for k_, v_ in kw_.items() if k_ not in ("path", "print_periodicity", "save_periodicity",
+                                                                                                 "plot_periodicity", "plot_patient_periodicity", "nb_of_patients_to_plot",
+                                                                                                 "overwrite_logs_folder", "plot_sourcewise")})
+                st_.parameters["n_iter"] = reuse["earlier_n_iter"]
+                if name == "mcmc_saem":
+                    m0 = workload.make_model(kind, nf)
+                    m0.fit(workload.to_data(cohort("train"), kind), algorithm_settings=st_)
+                else:
+                    m0 = ac.load_from_settings(ac.handwritten_settings(Stream(plan["gseed"], "model"), kind, nf))
+                    m0.personalize(workload.to_data(cohort("perso", n=3), kind), algorithm_settings=st_)
+                st_.parameters["n_iter"] = kw_["n_iter"]
+                return st_
+
             if call == "fit":
                 model = workload.make_model(kind, nf, **({"initialization_method": "random"} if plan.get("init_random") else {}))
                 data = workload.to_data(cohort("train"), kind)
                 kw.update(n_iter=plan["n_iter"])
                 if plan.get("annealing"):
                     kw["annealing"] = dict(plan["annealing"])
-                if logs:
-                    kw.update(logs)
-                model.fit(data, "mcmc_saem", **kw)
+                if reuse and not logs:
+                    model.fit(data, algorithm_settings=settings_used_before("mcmc_saem", kw))
+                else:
+                    if logs:
+                        kw.update(logs)
+                    model.fit(data, "mcmc_saem", **kw)
                 p = model.parameters
                 return tdig([p[k].detach().numpy() for k in sorted(p)])
             model = ac.load_from_settings(ac.handwritten_settings(Stream(plan["gseed"], "model"), kind, nf))
@@ -81,7 +103,10 @@ def main():
                     kw.update(n_iter=plan["n_iter"])
                     if plan.get("annealing"):
                         kw["annealing"] = dict(plan["annealing"])
-                ip = model.personalize(data, call, **kw)
+                if reuse and call != "scipy_minimize":
+                    ip = model.personalize(data, algorithm_settings=settings_used_before(call, kw))
+                else:
+                    ip = model.personalize(data, call, **kw)
                 d = ip._individual_parameters
                 return tdig([np.atleast_1d(np.asarray(d[i][k], dtype=np.float64)) for i in ip._indices for k in sorted(d[i])])
             if call == "simulate":
